@@ -4,7 +4,7 @@ seeded/*-r2-*/meta.json."""
 import glob, json, os, re
 V = os.path.dirname(os.path.dirname(os.path.abspath(__file__)))
 rows = []
-for d in sorted(glob.glob(os.path.join(V, "seeded", "*-r2-*", ""))):
+for d in sorted(glob.glob(os.path.join(V, "seeded", "*-r2-*", "")) + glob.glob(os.path.join(V, "seeded", "*-r3-*", ""))):
   n = os.path.basename(d.rstrip("/"))
   m = json.load(open(os.path.join(d, "meta.json")))
   rows.append("| %s | %s | %s | %s |" % (n, m["needs_to_manifest"],
@@ -21,4 +21,4 @@ else:
   s = s[:i] + block + s[j:]
 open(p, "w").write(s)
 n_missed = sum(1 for r in rows if "**missed**" in r)
-print("round-2 rows: %d (%d missed at first)" % (len(rows), n_missed))
+print("round-2/3 rows: %d (%d missed at first)" % (len(rows), n_missed))
